@@ -409,6 +409,13 @@ def ctl_templates(seed, work):
     ndx = os.path.join(work, "c10_index.ndx")
     with open(ndx, "w") as f:
         f.write("[ grpA ]\n1\n[ grpB ]\n2\n")
+    # reference histogram read from a two-column file (x, p(x)); the x column lists the lower edges of the bins
+    refh = os.path.join(work, "c10_refhist.dat")
+    with open(refh, "w") as f:
+        f.write("".join("%s %s\n" % (fnum(5.0 * k), p_) for k, p_ in enumerate("0.01 0.02 0.03 0.04 0.05 0.03 0.01 0.01".split())))
+    fams.append(("bias:histrest_file", "colvar {\n  name hv\n  distancePairs {\n    group1 { atomNumbers 1 3 }\n    group2 { atomNumbers 2 4 }\n  }\n}\n"
+                 "histogramRestraint {\n colvars hv\n lowerBoundary 0.0\n upperBoundary 40.0\n width 5.0\n gaussianSigma 2.0\n"
+                 " refHistogramFile %s\n forceConstant 2.0\n outputEnergy on\n}\n" % refh, "off"))
     fams.append(("module:all", "smp off\nunits real\nindexFile %s\n" % ndx +
                  "colvar {\n  name d1\n  width 0.5\n  lowerBoundary 2.0\n  upperBoundary 8.0\n  distance {\n"
                  "    group1 { indexGroup grpA }\n    group2 { indexGroup grpB }\n  }\n}\n"
@@ -416,7 +423,7 @@ def ctl_templates(seed, work):
     for i, (name, cfg, tfm) in enumerate(fams):
         rng = common.random.Random(seed * 104729 + 31 * i + 7)
         sysm = ctl_system(rng)
-        out.append(dict(name=name, kind=name.split(":")[0], header=header24(sysm, tfm), cfg=parse_cfg(MODULE_PRELUDE + cfg),
+        out.append(dict(name=name, kind=name.split(":")[0], header=header24(sysm, tfm, extra="dt 1.0\ntemp 300.0" + c03.hdr_extra(cfg)), cfg=parse_cfg(MODULE_PRELUDE + cfg),
                         steps=ctl_steps(rng, sysm), sysm=sysm))
     return out
 
